@@ -22,7 +22,7 @@ def run(tier, seed):
     items = [(T.init_resume('C14'),), (T.calc_h('C14', resume_value=True), None, T.replay_calc_h), (T.run('C14', drop=('success=>initialisation-test-not-failed',)),)]
     from contracts import fn_resume as RS
     from contracts import fn_sequence as Q
-    items += [(Q.system_reset('C14'),), (Q.p_restore('C14'),), (Q.delegation('C14', 'e_clear', 'e_clear'),)]
+    items += [(Q.system_reset('C14'), None, Q.replay_reset_inputs), (Q.p_restore('C14'), None, Q.replay_reset_inputs), (Q.delegation('C14', 'e_clear', 'e_clear'),)]
     items += [(RS.dae_reset('C14'),), (RS.dae_resize_arrays('C14'), None, RS.replay_resize_arrays), (RS.dae_init_t('C14'),), (RS.fix_view_arrays('C14'), None, RS.replay_snapshot),
               (__import__('contracts.fn_address', fromlist=['x']).set_arrays_inplace('C14'),),
               (RS.save_ss_c('C14'), None, RS.replay_snapshot), (RS.load_ss_c('C14'), None, RS.replay_snapshot)]
